@@ -4,11 +4,11 @@
 -/
 import OttoVerif.Base.Proto
 import OttoVerif.C05.Spec
-import OttoVerif.C06.ParseNumber
+import OttoVerif.Base.ParseNumber
 namespace OttoVerif.C05.Driver
 open OttoVerif.F64 OttoVerif.Proto OttoVerif.C05
 
-def env : Env := { pn := OttoVerif.C06.parseNumber }
+def env : Env := { pn := OttoVerif.PN.parseNumber }
 
 def nk? : String → Option NK
   | "i8" => some .i8 | "i16" => some .i16 | "i32" => some .i32 | "i64" => some .i64 | "int" => some .int
